@@ -14,6 +14,7 @@ import sys
 import types
 
 from . import simmp
+from . import simthreads  # imported here, while sys.modules still holds the real queue/threading (queue.Full must be ONE class)
 from .kernel import Kernel, Op, SimAbort, SimKilled, SimUnsupported
 from .policy import Benign, PCT, Replay, WeightedSticky
 
@@ -347,6 +348,14 @@ def load_realign(repo):
                         w.kernel._note(proc.label, "fault", "raise %s at align call %d" % (ft.exc, kcall))
                         if ft.exc == "SystemExit":
                             raise SystemExit(ft.code)
+                        if ft.exc == "Unpicklable":
+                            # an ordinary Exception whose object cannot be pickled (a class defined in a
+                            # function body, as extension wrappers and closures produce them): harmless
+                            # unless somebody tries to send it through a queue
+                            class AlignerFailure(RuntimeError):
+                                pass
+
+                            raise AlignerFailure("injected aligner failure (exception object cannot be pickled)")
                         raise MemoryError("injected allocation failure")
             return self._a(*a, **k)
 
